@@ -87,6 +87,7 @@ func (e *Engine) ensureInit(pkg *ssa.Package) {
 func (e *Engine) RunHarness(fn *ssa.Function) {
 	e.ensureInit(fn.Pkg)
 	th := &Thread{id: 0}
+	th.vc[0] = 1
 	e.th = th
 	e.threads = []*Thread{th}
 	e.epoch = 1
